@@ -320,6 +320,8 @@ def run(tier):
         return rep.finish()
     check_decoders(rep, tier, rng, drv, run_)
     check_compressors(rep, tier, rng, drv, run_)
+    if tier == "thorough":
+        CL.coqchk(vlib, rep, PID)
     return rep.finish()
 
 
